@@ -114,14 +114,14 @@ Proof.
   - intros E. inversion E. subst. exact Hd.
 Qed.
 
-Lemma lmb_outer_inner_fuel fo : forall fi additive lo hi x bs nbound d it samples start_cost gn log, dok d -> (K + 2 <= fi)%nat ->
-  r_status (lmb_outer RO cost grad hess solve norm2 isfinite ofnat fo fi s additive lo hi x bs nbound d it samples start_cost gn log) <> MInnerOutOfFuel.
+Lemma lmb_outer_inner_fuel fo : forall fi additive lo hi x held bs nbound d it samples start_cost gn log, dok d -> (K + 2 <= fi)%nat ->
+  r_status (lmb_outer RO cost grad hess solve norm2 isfinite ofnat fo fi s additive lo hi x held bs nbound d it samples start_cost gn log) <> MInnerOutOfFuel.
 Proof.
-  induction fo as [|fo IH]; intros fi additive lo hi x bs nbound d it samples start_cost gn log Hd Hf; [cbn; discriminate|].
+  induction fo as [|fo IH]; intros fi additive lo hi x held bs nbound d it samples start_cost gn log Hd Hf; [cbn; discriminate|].
   cbn [Minim.lmb_outer].
   destruct (negb (isfinite (cost x))); [destruct (Minim.refresh _ _ _ _ _ _); discriminate|].
   destruct (existsb _ (grad x)); [destruct (Minim.refresh _ _ _ _ _ _); discriminate|].
-  destruct (in_play RO solve norm2 s additive bs nbound (grad x) (hess x) _ d) as [[bs1 ifree] gn1].
+  destruct (in_play RO solve norm2 s additive held bs nbound (grad x) (hess x) _ d) as [[bs1 ifree] gn1].
   destruct (oleb RO gn1 (thr s)); [destruct (Minim.refresh _ _ _ _ _ _); discriminate|].
   match goal with |- context [lmb_inner RO cost solve isfinite fi s additive lo hi x ifree ?a ?b ?c ?e d ?f ?g ?h ?i] =>
     pose proof (lmb_inner_fuel fi additive lo hi x ifree a b c e d f g h i Hd Hf) as Hnf;
